@@ -172,7 +172,7 @@ class Schema(ResolverMap):
                         "Cannot replace specified type %s" % original_type
                     )
 
-                busted_cache = new_type != original_type
+                busted_cache = busted_cache or new_type != original_type
 
                 if new_type is None:
                     del self.types[type_name]
